@@ -260,3 +260,41 @@ prop('C20',
      level_text=("Boundary-value enumeration at every on-disk limit with an explicit fits/does-not-fit oracle, exhaustive for the layer matrix; generated plans beyond the limits; exploration."),
      technique="boundary-value enumeration + property-based generation of over-limit plans, forked children under RLIMIT_FSIZE as fault detector",
      design_ref="DESIGN.md section 3, C20")
+
+prop('C06',
+     quick=dict(sweep=True, pbt=(12000, 700, 10), fuzz=(40000, 700, 5)),
+     thorough=dict(sweep=True, pbt=(600000, 900, 11), fuzz=(3000000, 900, 5), stage_timeout=3400),
+     floor=dict(quick=20000, thorough=500000), alloc_cap_mb=256,
+     rule=("Logical maps decoded from a tape and serialised by an independent encoder: log2 width 0..10, height 0..(tiles <= 65536; thorough 2^20), tile words random / multiplicative / low-half, "
+           "arbitrary clip rectangle, 0..8 tileset sources (names 0..8 bytes, empty names carry no tile count), 0..40 or 2048 mappings, 0..4 terrain types (264 bytes), 0..6 tile groups incl. zero "
+           "area with names 0..20, saved-game flag from {0,1,2,-1,256,INT_MIN,random}, version tags >= 0x1010 incl. 0x80000000/0xFFFFFFFF, arbitrary 'unknown' group-header word, optional trailing "
+           "bytes; read through MemoryReader or a file. Oracle: every public field/getter equals the logical map; Write == consumed input bytes with flag normalised and the unknown word masked == "
+           "reference serialisation; Write(Read(w)) == w. Then 0..30 edits (SetCellType with all 32 types / SetLavaPossible on in-range coordinates of maps >= 32 wide, SetVersionTag incl. values "
+           "below 0x1010, TrimTilesetSources) applied to library object and model: fields equal, Write == reference serialisation of the edited model, re-read equal and byte-stable, or an ordinary "
+           "error exactly when the tag was set below 0x1010. Sweep: 11 widths x 4 heights x 6 table-shape variants with a 12-edit script. Non-trivial = >=1 tile and >=1 non-empty table."),
+     sweep_what="all widths 2^0..2^10 x heights {0,1,2,33} x 6 table shapes (empty tables, empty-name sources, terrain types, zero-area groups, arbitrary unknown word + trailing bytes, min tag)",
+     assumptions=["cell edits only on maps at least 32 tiles wide and in-range coordinates (the addressing precondition, cf. C16)", "tile-group area products are kept below 2^32"],
+     title="Map read/write round-trips every field and is byte-stable",
+     level_text=("Round-trip, byte-stability and edit-locality properties over generated maps with an independent serialiser as oracle, under ASan/UBSan; exploration."),
+     technique="round-trip / model-based property testing against an independent map serialiser (rapidcheck + libFuzzer tapes), shape sweep",
+     design_ref="DESIGN.md section 3, C06")
+
+prop('C07',
+     quick=dict(sweep=True, pbt=(5000, 500, 10), fuzz=(40000, 600, 5)),
+     thorough=dict(sweep=True, pbt=(400000, 800, 10), fuzz=(8000000, 800, 6), stage_timeout=3400),
+     floor=dict(quick=30000, thorough=1000000), alloc_cap_mb=64, case_timeout=90,
+     rule=("Sweep: 4 reference-encoded maps (no tiles; 32x2; 2x3 with every table populated; 64x1 saved-flag) - every proper prefix of the consumed portion must be rejected, the intact file accepted "
+           "with all fields equal; every header/length field x {0,1,5,8..11,16,20,30..33,63,64,255,2^16,2^31-1,2^31,2^32-1,0x100F,0x1010,v+-1}; all 17x13 (log2 width, height) pairs incl. log2 >= 32 and "
+           "products beyond 2^32 on a tile-less map (so a wrapped tile count would be accepted); saved games (0x1E025 filler bytes + map beginning + tag + unit block with 0..2 object-1 records, "
+           "0..3 object-2 words, optional free-unit table + tag): result equals ReadMap on a map file embedding the same map portion (dimensions, tiles, clip rectangle, sources, mappings, terrain "
+           "types), bad unit size rejected, prefixes every 97th byte and +-8 around each field boundary (thorough: all ~370000 prefixes of one saved game), every saved-game field x boundary values. "
+           "pbt/fuzz: structure-aware tapes (generated map or saved game + 1..3 corruptions: field boundary value, truncation, byte flip) through MemoryReader and file entry points, generated "
+           "valid maps with sampled prefixes, saved-game equivalence on generated maps, and raw bytes into ReadMap (libFuzzer, seeded with the 4 maps). Oracle: ordinary error, or a map whose "
+           "width is 2^(log2 field) < 2^32 and whose tile array has exactly width x height entries computed in 64 bits; no sanitizer report (over-wide shifts are UBSan-fatal); watchdog. "
+           "Non-trivial = accepted input with >=1 tile, or input rejected after passing the first version-tag check."),
+     sweep_what="all prefixes of 4 maps; (field x boundary) tables for maps and saved games; 221 (log2 width, height) pairs; saved-game prefixes (sampled / all) and equivalence",
+     assumptions=["allocation requests above 64 MiB fail with std::bad_alloc (memory-limited host), so tile counts up to 2^32 are executed rather than skipped"],
+     title="Map and saved-game readers are safe and self-consistent on arbitrary bytes",
+     level_text=("Fault-injection sweeps, structure-aware and raw coverage-guided fuzzing with a dimensional-consistency oracle and map/saved-game differential under ASan/UBSan; exploration."),
+     technique="structure-aware + raw coverage-guided fuzzing (libFuzzer), rapidcheck corruption plans, exhaustive prefix/field sweeps, map vs saved-game differential, ASan/UBSan",
+     design_ref="DESIGN.md section 3, C07")
